@@ -42,6 +42,9 @@ func (c *Conversation) receiveUnit(m ValidMessage, forgetFragments bool) (plain 
 			return c.withInjectionsPlain(c.receiveUnit(assembled, false))
 		}
 	case msgGuessUnknown:
+		// not looked at any further (its instance tags neither): it must not disturb a fragment
+		// stream of our peer
+		shouldForgetFragment = false
 		c.messageEvent(MessageEventReceivedMessageUnrecognized)
 	case msgGuessDHCommit, msgGuessDHKey, msgGuessRevealSig, msgGuessSignature, msgGuessData:
 		plain, messagesToSend, err = c.receiveEncoded(encodedMessage(message))
